@@ -35,6 +35,9 @@ OBJ_SHALLOW = {'clone', 'without_derivs', 'without_deriv', 'without_mask', 'with
 NP_VIEW_FUNCS = {'rollaxis', 'moveaxis', 'swapaxes', 'broadcast_to', 'asarray', 'asanyarray', 'reshape', 'transpose',
                  'squeeze', 'expand_dims', 'atleast_1d', 'atleast_2d', 'ascontiguousarray'}
 ND_VIEW_METHODS = {'reshape', 'swapaxes', 'view', 'transpose', 'squeeze'}
+NP_MAYVIEW = {'ravel', 'diagonal', 'diag', 'real', 'imag', 'split', 'array_split', 'hsplit', 'vsplit', 'dsplit', 'flip',
+              'fliplr', 'flipud', 'rot90', 'broadcast_arrays', 'atleast_3d', 'asfortranarray', 'require', 'nan_to_num',
+              'asarray_chkfinite', 'frombuffer', 'ndarray', 'take_along_axis', 'lib', 'ma', 'nditer', 'array'}
 NP_FRESH_FUNCS = {'zeros', 'ones', 'empty', 'full', 'array', 'arange', 'eye', 'identity', 'diag', 'zeros_like',
                   'ones_like', 'empty_like', 'full_like', 'copy', 'stack', 'concatenate', 'where', 'sqrt', 'abs',
                   'sum', 'cos', 'sin', 'logical_not', 'logical_or', 'logical_and'}
@@ -93,9 +96,27 @@ def MAY(name, storage):
     return ('may', name, storage)
 
 
+CONST = ('fresh', 'const')     # None / number / string / bool: immutable, a write through it raises
+
+
+def ORNEW(name):
+    """the bare parameter `name` itself on some path, a NEW object on the others (`cast`, `as_float`, … return
+    `self` when nothing has to change): object-level changes are POSSIBLE changes of the parameter"""
+    return ('ornew', name)
+
+
 def join(a, b):
     if a == b:
         return a
+    if a == CONST:
+        return b
+    if b == CONST:
+        return a
+    for x, y in ((a, b), (b, a)):
+        if x[0] == 'param' and not x[2] and (y == NEWOBJ or y[0] == 'shallow' and y[1] == x[1]):
+            return ORNEW(x[1])
+        if x[0] == 'ornew' and (y == NEWOBJ or (y[0] in ('shallow', 'param') and y[1] == x[1] and not (y[0] == 'param' and y[2]))):
+            return x
     if a[0] == 'param' and b[0] == 'param' and a[1] == b[1]:
         return PARAM(a[1], a[2] and b[2])
     for x, y in ((a, b), (b, a)):
@@ -132,6 +153,10 @@ def is_basic_index(node):
 class Fn:
     def __init__(self, qual, node, is_static):
         self.qual, self.node = qual, node
+        self.static = is_static
+        self.depth = 0          # nesting depth in if/for/while/try of the statement being analysed
+        self.cls = qual.split('.', 1)[0]
+        self.name = qual.split('.', 1)[1]
         self.sites = []
         self.returns = []
         a = node.args
@@ -151,8 +176,10 @@ class Fn:
                 return SHALLOW(t[1])
             if t[0] in ('param', 'shallow') and (e.attr in STORAGE_ATTRS or e.attr.startswith('d_d')):
                 return PARAM(t[1], True)
-            if t[0] == 'may' and (e.attr in STORAGE_ATTRS or e.attr.startswith('d_d')):
+            if t[0] in ('may', 'ornew') and (e.attr in STORAGE_ATTRS or e.attr.startswith('d_d')):
                 return MAY(t[1], True)
+            if t in (FRESH, FRESHOP, CONST):
+                return t                                # .T / .shape / .real of a new array
             if t == NEWOBJ and e.attr in ('__dict__', '_cache_', '_derivs_'):
                 return NEWOBJ                           # the new object's own dictionaries
             return UNKNOWN
@@ -171,6 +198,12 @@ class Fn:
                     return PARAM(t[1], False)           # args[0] of *args, or a basic slice of a bare parameter
             return UNKNOWN
         if isinstance(e, ast.Call):
+            r = self.ev_call(e, env)
+            return r if r != UNKNOWN else self.call_ret(e, env)
+        return self.ev_rest(e, env)
+
+    def ev_call(self, e, env):
+        if True:
             f = e.func
             if isinstance(f, ast.Attribute):
                 base = f.value
@@ -182,12 +215,19 @@ class Fn:
                         if t[0] == 'may' and t[2]:
                             return t
                         return PARAM(t[1], True) if t[0] == 'param' and t[2] else UNKNOWN
-                    if f.attr in NP_FRESH_FUNCS:
+                    if f.attr in NP_FRESH_FUNCS and not any(k.arg == 'copy' for k in e.keywords):
                         return FRESH
-                    return UNKNOWN
+                    if f.attr in NP_MAYVIEW or any(k.arg in ('out', 'copy') for k in e.keywords):
+                        return UNKNOWN
+                    return FRESH                        # every other NumPy function returns a new array / a scalar
                 t = self.ev(base, env)
                 if f.attr in FRESH_METHODS:
                     return FRESH
+                if t in (FRESH, FRESHOP) and all(self.ev(a, env)[0] == 'fresh' for a in e.args) and \
+                        all(self.ev(k.value, env)[0] == 'fresh' for k in e.keywords):
+                    # a method of a new array / deep copy whose arguments are new or immutable too: the result
+                    # can only be (a view of) new storage
+                    return t
                 if t in (FRESH, FRESHOP) and f.attr in ND_VIEW_METHODS:
                     return t
                 if t[0] == 'may' and t[2] and f.attr in ND_VIEW_METHODS:
@@ -206,11 +246,21 @@ class Fn:
                 if isinstance(base, ast.Name) and base.id in CLASS_NAMES and f.attr in CTOR_STATICS:
                     return UNKNOWN
                 return UNKNOWN
+            if isinstance(f, ast.Name) and f.id in ('list', 'dict', 'set', 'sorted', 'zip', 'enumerate', 'range'):
+                return ('fresh', 'container')
+            if isinstance(f, ast.Name) and f.id in ('len', 'int', 'float', 'bool', 'str', 'abs', 'round', 'sum', 'max',
+                                                     'min', 'repr', 'isinstance', 'tuple', 'type', 'id', 'hash'):
+                return CONST
             if isinstance(f, ast.Name) and f.id in CLASS_NAMES:
                 return NEWOBJ                           # Scalar(...), Matrix(...): a new object (arrays may be shared)
             if isinstance(f, ast.Call) and isinstance(f.func, ast.Name) and f.func.id == 'type':
                 return NEWOBJ                           # type(self)(...)
             return UNKNOWN
+        return UNKNOWN
+
+    def ev_rest(self, e, env):
+        if isinstance(e, ast.Constant) or isinstance(e, ast.JoinedStr):
+            return CONST
         if isinstance(e, (ast.BinOp, ast.UnaryOp, ast.Compare, ast.BoolOp)):
             return FRESHOP if not isinstance(e, ast.BoolOp) else UNKNOWN
         if isinstance(e, ast.IfExp):
@@ -222,6 +272,8 @@ class Fn:
     # ------------------------------------------------------------------ write sites
     def site(self, node, kind, target, env):
         root = self.ev(target, env)
+        if root[0] == 'ornew':
+            root = MAY(root[1], kind in ('setitem', 'augitem'))
         if root[0] == 'shallow' and kind in ('setitem', 'augitem'):
             # item assignment to a shallow copy goes through Qube.__setitem__, which writes the SHARED arrays
             root = PARAM(root[1], True)
@@ -229,7 +281,8 @@ class Fn:
             txt = ast.unparse(target)
         except Exception:
             txt = '?'
-        self.sites.append({'fn': self.qual, 'line': node.lineno, 'kind': kind, 'target': txt[:60], 'root': root})
+        self.sites.append({'fn': self.qual, 'line': node.lineno, 'kind': kind, 'target': txt[:60], 'root': root,
+                           'definite': self.depth == 0})
 
     def write_target(self, node, tgt, env, aug):
         if isinstance(tgt, ast.Subscript):
@@ -245,25 +298,141 @@ class Fn:
                 self.site(node, 'setflag', tgt.value.value, env)
             elif tgt.attr in REBIND_ATTRS or tgt.attr.startswith('d_d'):
                 root = self.ev(tgt.value, env)
+                if root[0] == 'ornew':
+                    root = MAY(root[1], False)
                 kind = 'setname' if tgt.attr == 'name' else 'rebind:' + tgt.attr
                 # rebinding an attribute of the parameter object itself
                 self.sites.append({'fn': self.qual, 'line': node.lineno, 'kind': kind,
-                                   'target': ast.unparse(tgt.value)[:60], 'root': root})
+                                   'target': ast.unparse(tgt.value)[:60], 'root': root, 'definite': self.depth == 0})
         elif isinstance(tgt, ast.Name) and aug:
             root = env.get(tgt.id, UNKNOWN)
             if root[0] in ('param', 'may') and not root[2]:
                 # a bare parameter may be an immutable number (axis += 1): not definite, but POSSIBLE (x_power *= x)
                 root = MAY(root[1], False)
-            self.sites.append({'fn': self.qual, 'line': node.lineno, 'kind': 'augname', 'target': tgt.id, 'root': root})
+            self.sites.append({'fn': self.qual, 'line': node.lineno, 'kind': 'augname', 'target': tgt.id, 'root': root,
+                               'definite': self.depth == 0})
         elif isinstance(tgt, (ast.Tuple, ast.List)):
             for t in tgt.elts:
                 self.write_target(node, t, env, aug)
+
+    # ------------------------------------------------------------------ interprocedural layer
+    def resolve(self, call):
+        """[(callee summary, {formal: actual expr})] for a call into polymath, or None.  Resolution is by NAME over all
+        classes (dynamic dispatch): every candidate must agree for a result to be used."""
+        f = call.func
+        if isinstance(f, ast.Attribute):
+            name, base = f.attr, f.value
+        elif isinstance(f, ast.Name):
+            name, base = f.id, None
+        else:
+            return None
+        cands = TABLE.get(name)
+        if not cands or name in MUTATORS or name in OBJ_SHALLOW or name in FRESH_METHODS:
+            return None
+        out = []
+        class_base = isinstance(base, ast.Name) and base.id in CLASS_NAMES
+        if class_base and any(c['cls'] == base.id for c in cands):
+            cands = [c for c in cands if c['cls'] == base.id]
+        for c in cands:
+            formals = list(c['params'])
+            actuals = list(call.args)
+            if any(isinstance(a, ast.Starred) for a in actuals):
+                return None
+            bind = {}
+            if base is not None and not c['static'] and not class_base:
+                if not formals or formals[0] != 'self':
+                    return None
+                bind['self'] = base
+                formals = formals[1:]
+            elif c['static'] and formals and formals[0] == 'self':
+                return None
+            for fm, ac in zip(formals, actuals):
+                bind[fm] = ac
+            for kw in call.keywords:
+                if kw.arg is not None:
+                    bind[kw.arg] = kw.value
+            out.append((c, bind))
+        return out
+
+    def inst(self, claim, bind, env):
+        """root of a callee's result at this call"""
+        if claim == 'newarray':
+            return FRESH
+        if claim == 'newobj':
+            return NEWOBJ
+        kind, _, p = claim.partition(':')
+        if kind not in ('operand', 'storage', 'shallow', 'ornew') or p not in bind:
+            return UNKNOWN
+        t = self.ev(bind[p], env)
+        if kind == 'ornew':
+            if t == NEWOBJ or t[0] in ('shallow', 'ornew'):
+                return t
+            if t[0] == 'param' and not t[2]:
+                return ORNEW(t[1])
+            return UNKNOWN
+        if kind == 'operand':
+            return t
+        if kind == 'storage':
+            if t[0] in ('param', 'shallow'):
+                return PARAM(t[1], True)
+            if t[0] == 'may':
+                return MAY(t[1], True)
+            return UNKNOWN
+        # shallow copy of the actual
+        if t[0] == 'param' and not t[2]:
+            return SHALLOW(t[1])
+        if t[0] == 'shallow' or t == NEWOBJ:
+            return t
+        return UNKNOWN
+
+    def call_ret(self, call, env):
+        r = self.resolve(call)
+        if not r:
+            return UNKNOWN
+        roots = [self.inst(c['claim'], bind, env) for c, bind in r]
+        out = roots[0]
+        for x in roots[1:]:
+            if x != out:
+                return UNKNOWN
+        return out
+
+    def call_effects(self, call, env):
+        """the callee's writes to its parameters, instantiated at the actual arguments (summary composition)"""
+        r = self.resolve(call)
+        if not r or len(r) != 1 and len({tuple(sorted((e['formal'], e['kind'], e['storage'], e['definite'])
+                                                        for e in c['effects'])) for c, _ in r}) != 1:
+            return
+        c, bind = r[0]
+        for e in c['effects']:
+            if e['formal'] not in bind or not e['definite']:
+                # only what the callee does on EVERY path is composed; its conditional writes are POSSIBLE sites of the
+                # callee itself (reviewed there) and stay invisible to the caller — kept definite on purpose
+                continue
+            t = self.ev(bind[e['formal']], env)
+            if t[0] == 'param':
+                root = PARAM(t[1], True) if (e['storage'] or t[2]) else PARAM(t[1], False)
+            elif t[0] == 'shallow':
+                if not e['storage'] and not e['kind'] in ('setitem', 'augitem'):
+                    continue                    # object-level change of a new object
+                root = PARAM(t[1], True)
+            elif t[0] == 'may':
+                root = MAY(t[1], bool(e['storage'] or t[2]))
+            else:
+                continue
+            definite = e['definite'] and self.depth == 0
+            try:
+                txt = ast.unparse(bind[e['formal']])
+            except Exception:
+                txt = '?'
+            self.sites.append({'fn': self.qual, 'line': call.lineno, 'kind': e['kind'], 'target': txt[:60],
+                               'root': root, 'definite': definite, 'via': c['qual']})
 
     def calls(self, node, env):
         for c in ast.walk(node):
             if not isinstance(c, ast.Call):
                 continue
             f = c.func
+            self.call_effects(c, env)
             for kw in c.keywords:
                 if kw.arg == 'out':
                     self.site(c, 'out=', kw.value, env)
@@ -319,6 +488,15 @@ class Fn:
                 self.calls(s.value, env)
                 env = self.assign(s.target, s.value, self.ev(s.value, env), env)
             return env
+        if isinstance(s, (ast.If, ast.For, ast.AsyncFor, ast.While, ast.Try)):
+            self.depth += 1
+            try:
+                return self.compound(s, env)
+            finally:
+                self.depth -= 1
+        return self.compound(s, env)
+
+    def compound(self, s, env):
         if isinstance(s, ast.If):
             self.calls(s.test, env)
             return join_env(self.block(s.body, env), self.block(s.orelse, env))
@@ -355,11 +533,12 @@ class Fn:
         return env
 
     def run(self):
+        self.sites, self.returns, self.depth = [], [], 0
         self.block(self.node.body, dict(self.env0))
         # loop bodies are analysed twice (fixpoint): keep, per site, the JOIN of the roots seen
         merged, order = {}, []
         for s in self.sites:
-            k = (s['fn'], s['line'], s['kind'], s['target'])
+            k = (s['fn'], s['line'], s['kind'], s['target'], s.get('via'))
             if k in merged:
                 merged[k]['root'] = join(merged[k]['root'], s['root'])
             else:
@@ -382,7 +561,22 @@ class Fn:
             return 'shallow:' + r[1]
         if r == FRESH:
             return 'newarray'
+        if r == NEWOBJ:
+            return 'newobj'
+        if r[0] == 'ornew':
+            return 'ornew:' + r[1]
         return 'unknown'
+
+    def summary(self):
+        """what a caller needs to know: result claim and the writes to the parameters"""
+        eff = []
+        for st in self.sites:
+            r = st['root']
+            if r[0] in ('param', 'may') and r[1] in self.params:
+                eff.append({'formal': r[1], 'kind': st['kind'], 'storage': bool(r[2]),
+                            'definite': bool(st.get('definite')) and r[0] == 'param'})
+        return {'qual': self.qual, 'cls': self.cls, 'params': list(self.params), 'static': self.static,
+                'claim': self.claim(), 'effects': eff}
 
 
 # --------------------------------------------------------------------------------------------------------------
@@ -399,32 +593,50 @@ def repo_root():
 FUNS = []
 
 
+TABLE = {}          # method name -> [callee summary] (all classes, public and private), from the previous round
+ROUNDS = 3
+
+
 def scan():
+    """interprocedural: every function of polymath (public and private) is analysed ROUNDS times, each round using
+    the callee summaries (result claim + writes to parameters) of the previous one; the PUBLIC NON-MUTATING ones are
+    reported"""
     root = repo_root()
-    sites, nfun = [], 0
-    FUNS.clear()
+    allf = []
     for fn in REPO_FILES:
         tree = ast.parse(open(os.path.join(root, fn)).read(), fn)
         for c in tree.body:
             if not isinstance(c, ast.ClassDef):
                 continue
             for m in c.body:
-                if isinstance(m, ast.FunctionDef) and _public(m.name):
+                if isinstance(m, ast.FunctionDef):
                     static = any(isinstance(d, ast.Name) and d.id in ('staticmethod', 'classmethod')
                                  for d in m.decorator_list)
-                    nfun += 1
-                    f = Fn('%s.%s' % (c.name, m.name), m, static)
-                    sites += f.run()
-                    FUNS.append(f)
+                    clsm = any(isinstance(d, ast.Name) and d.id == 'classmethod' for d in m.decorator_list)
+                    f = Fn('%s.%s' % (c.name, m.name), m, static and not clsm)
+                    f.public = _public(m.name)
+                    allf.append(f)
     for fn in EXT_FILES:
         tree = ast.parse(open(os.path.join(root, 'extensions', fn)).read(), fn)
         for m in tree.body:
-            if isinstance(m, ast.FunctionDef) and _public(m.name):
-                nfun += 1
+            if isinstance(m, ast.FunctionDef):
                 f = Fn('Qube.%s' % m.name, m, False)
-                sites += f.run()
-                FUNS.append(f)
-    return sites, nfun
+                f.public = _public(m.name)
+                allf.append(f)
+    TABLE.clear()
+    for rnd in range(ROUNDS):
+        for f in allf:
+            f.run()
+        TABLE.clear()
+        for f in allf:
+            TABLE.setdefault(f.name, []).append(f.summary())
+    FUNS.clear()
+    sites = []
+    for f in allf:
+        if f.public:
+            FUNS.append(f)
+            sites += f.sites
+    return sites, len(FUNS)
 
 
 # --------------------------------------------------------------------------------------------------------------
@@ -461,7 +673,7 @@ def summarise(f):
     for s in f.sites:
         root, kind = s['root'], s['kind']
         is_write = kind in WRITE_KINDS or kind.startswith('nd.') or kind.startswith('np.')
-        if root[0] in ('unknown', 'may'):
+        if root[0] in ('unknown', 'may', 'ornew'):
             return None
         if root[0] == 'fresh':
             if is_write:
@@ -551,7 +763,7 @@ def render(sites, nfun):
     rows = []
     for s in sites:
         r = s['root']
-        root = '.fresh' if r[0] in ('fresh', 'shallow') else '.unknown' if r[0] == 'unknown' else \
+        root = '.fresh' if r[0] in ('fresh', 'shallow') else '.unknown' if r[0] in ('unknown', 'ornew') else \
             '.may %s %s' % (lean_str(r[1]), 'true' if r[2] else 'false') if r[0] == 'may' else \
             '.param %s %s' % (lean_str(r[1]), 'true' if r[2] else 'false')
         allowed = (s['fn'], s['kind'], s['target']) in ALLOW or (s['fn'], s['kind'], s['target']) in POSSIBLE_OK
